@@ -20,7 +20,7 @@ from detsim.asgi_sim import Conn, HttpMonitor, body_events, http_scope
 from detsim.simloop import Env, SimBudgetExceeded, SimLoop
 from detsim.threadsim import ThreadSim
 from detsim.core import reset_falcon_caches
-from detsim.wsgi_sim import WsgiExchange, make_environ
+from detsim.wsgi_sim import FileWrapper, WsgiExchange, make_environ
 
 PROPERTY = 'C19'
 LEVEL = 'exploration'
@@ -74,8 +74,8 @@ def path_for(tpl, k):
         '{uid:uuid}': UUIDS[k % 3], '{p:path}': 'd%d/f%d.txt' % (k, k), '{a}-{b}': 'l%d-r%d' % (k, k),
         '{a}': 'aa%d' % k, '{b:int(min=1)}': str(5 + k), '{code:int}': str([400, 404, 409][k % 3]),
         '{k}': 'key%d' % k, '{d}': 'det%d' % k, '{ver:int}': str(1 + k),
-        '{when:dt("%Y-%m-%d")}': ['2020-01-02', 'not-a-date', '2021-13-45'][k % 3],
-        '{x:float}': ['1.5', 'nan-ish', '2e3'][k % 3],
+        '{when:dt("%Y-%m-%d")}': ['2020-01-02', 'not-a-date', '2019-12-31', '2021-13-45'][k % 4],
+        '{x:float}': ['1.5', 'nan-ish', '2e3', '-7.25'][k % 4],
         '{x:flaky}': 'fl%d' % k,
         '{file}': ['a.txt', 'b.bin', 'c.dat', 'missing-1.txt', 'missing-2.txt'][k % 5],
     }
@@ -120,7 +120,10 @@ def gen_plan(ch, deep=False):
             routes.sort()
         for k in range(3):
             reqs.append({'route': si, 'path': path_for(TEMPLATES[si][0], ch.draw(5, 'file')), 'method': 'GET',
-                         'tag': 'tag%d' % k, 'ctype': None, 'accept': ACCEPTS[0], 'query': '', 'body': None})
+                         'tag': 'tag%d' % k, 'ctype': None, 'accept': ACCEPTS[0], 'query': '', 'body': None,
+                         # conditional requests: older than, equal to, newer than the files' mtime
+                         'ims': [None, None, 'Thu, 13 Jul 2017 00:00:00 GMT', 'Fri, 14 Jul 2017 02:40:00 GMT',
+                                 'Sat, 15 Jul 2017 00:00:00 GMT'][ch.draw(5, 'if_modified_since')]})
         return {'routes': routes, 'n_mw': n_mw, 'reqs': reqs,
                 'independent_mw': bool(ch.draw(2, 'independent_mw')), 'caches_full': False}
     if scenario == 5:
@@ -144,11 +147,18 @@ def gen_plan(ch, deep=False):
         # every request hits one converter-carrying route, with few distinct (possibly
         # malformed, possibly repeated) field values: converters must not remember anything
         same_route = conv_routes[ch.draw(len(conv_routes), 'which_route')]
+        if ch.draw(2, 'prefer_value_parsing_converter'):
+            # dt / float converters do the most work per call (the likeliest place for a memo)
+            want = [i for i, t in enumerate(TEMPLATES) if 'dt(' in t[0] or ':float' in t[0]]
+            same_route = want[ch.draw(len(want), 'which_parsing_route')]
+            if same_route not in routes:
+                routes.append(same_route)
+                routes.sort()
         n_req = 3
     for k in range(n_req):
         if same_route is not None:
             tpl, kind = TEMPLATES[same_route]
-            v = ch.draw(3, 'variant')
+            v = ch.draw(4, 'variant')
             reqs.append({'route': same_route, 'path': path_for(tpl, v), 'method': 'GET', 'tag': 'tag%d' % k,
                          'accept': ACCEPTS[0], 'query': 'q=%d&who=r%d' % (v, v), 'body': None})
             continue
@@ -162,7 +172,7 @@ def gen_plan(ch, deep=False):
         miss = ch.draw(10, 'miss') == 9
         method = 'POST' if ch.draw(3, 'method') == 2 else 'GET'
         tpl, kind = TEMPLATES[r]
-        path = path_for(tpl, ch.draw(3, 'path_variant') if ('dt(' in tpl or 'float' in tpl) else k) \
+        path = path_for(tpl, ch.draw(4, 'path_variant') if ('dt(' in tpl or 'float' in tpl) else k) \
             if not miss else '/nope/%d' % k
         body = None
         ctype = None
@@ -277,7 +287,7 @@ class ThingMissing(AppError, falcon.HTTPNotFound):
 
 HOT_FUNCS = ('_handle_exception', '_find_error_handler', '_compose_error_response', '_get_responder',
              '_compile_and_find', 'find', '_http_error_handler', '_resolve', 'resolve', 'get_media')
-CACHE_FILES = ('util/misc.py', 'util/mediatypes.py', 'media/handlers.py', 'asgi/request.py')
+CACHE_FILES = ('util/misc.py', 'util/mediatypes.py', 'media/handlers.py', 'asgi/request.py', 'request.py')
 
 
 def fill_caches(app):
@@ -449,9 +459,11 @@ def norm_headers(pairs):
 def wsgi_request(ctx, app, r):
     body = r['body'].encode() if r['body'] is not None else b''
     env = make_environ(method=r['method'], path=r['path'], query=r['query'],
-                       headers=[('X-Tag', r['tag']), ('Accept', r.get('accept', 'application/json'))],
+                       headers=[('X-Tag', r['tag']), ('Accept', r.get('accept', 'application/json'))] + (
+                           [('If-Modified-Since', r['ims'])] if r.get('ims') else []),
                        body_input=io.BytesIO(body), content_length=len(body) if r['body'] is not None else None,
-                       content_type=(r.get('ctype') or 'application/json') if r['body'] is not None else None)
+                       content_type=(r.get('ctype') or 'application/json') if r['body'] is not None else None,
+                       file_wrapper=FileWrapper if r.get('fw') else None)
     ex = WsgiExchange(ctx)
     if ex.call(app, env):
         ex.consume()
@@ -465,6 +477,10 @@ def run_threads(ctx, plan):
     prefixes = (mirror.directory() + '/falcon/',)
     variant = ch.weighted([5, 2, 2], 'router_variant')   # 0 cold, 1 compile=True, 2 warm-up
     reqs = plan['reqs']
+    if ch.draw(2, 'wsgi_file_wrapper'):
+        # the server offers wsgi.file_wrapper, bound to each request (mod_wsgi style)
+        for r in reqs:
+            r['fw'] = True
 
     def fresh(sim, record):
         compiled_mod.Lock = sim.make_lock
@@ -514,7 +530,8 @@ def run_threads(ctx, plan):
         locs = solo_locs[t]
         if not locs:
             continue
-        zone = ch.weighted([3, 4, 3, 3, 3], 'preempt_zone')  # 0 lock boundary, 1 router, 2 anywhere, 3 hot functions, 4 cache modules
+        # 0 lock boundary, 1 router, 2 anywhere, 3 hot functions, 4 cache modules, 5 field converters
+        zone = ch.weighted([3, 4, 3, 3, 3, 2], 'preempt_zone')
         if zone == 0:
             cand = [i for i, x in enumerate(locs) if x[0] == '<lock>']
         elif zone == 1:
@@ -523,6 +540,8 @@ def run_threads(ctx, plan):
             cand = [i for i, x in enumerate(locs) if x[2] in HOT_FUNCS]
         elif zone == 4:
             cand = [i for i, x in enumerate(locs) if x[0].endswith(CACHE_FILES)]
+        elif zone == 5:
+            cand = [i for i, x in enumerate(locs) if x[0].endswith('routing/converters.py')]
         else:
             cand = None
         if cand:
@@ -701,6 +720,8 @@ def asgi_exchange(ctx, plan, reqs, concurrent, arm_flaky=False):
     conns = []
     for r in reqs:
         hdrs = [('X-Tag', r['tag']), ('Accept', r.get('accept', 'application/json')), ('Host', 'sim')]
+        if r.get('ims'):
+            hdrs.append(('If-Modified-Since', r['ims']))
         body = r['body'].encode() if r['body'] is not None else None
         if body is not None:
             hdrs += [('Content-Type', r.get('ctype') or 'application/json'), ('Content-Length', str(len(body)))]
